@@ -61,6 +61,10 @@ RULE = ('cases: (a) one_form: one unit, one entry, one attribute of each standar
         '.debug_info, type-signature references (direct and through DW_FORM_indirect) in about half of the abbreviations, '
         'under each of the three .debug_types states.  In every case each type unit signature is also looked up directly '
         '(get_DIE_by_sig8, get_TU_by_sig8, each as the first query on a fresh DWARFInfo). '
+        'Abbreviation tables declare their codes in no particular order (the root\'s declaration anywhere, small codes after '
+        'large ones).  Every world carries a history of by-offset accesses (get_CU_at of the last unit first / of arbitrary '
+        'units in any order): all observations (iter_CUs, entries, children, parents, references) are taken on fresh objects '
+        'and again on objects that first served that history. '
         'distinct = hash(kind, abstract); non-trivial = at least two entries or an attribute')
 
 STD_FORMS = [0x01, 0x03, 0x04, 0x05, 0x06, 0x07, 0x08, 0x09, 0x0a, 0x0b, 0x0c, 0x0d, 0x0e, 0x0f, 0x10, 0x11, 0x12, 0x13,
@@ -299,8 +303,13 @@ def gen_table(g, nforms_cursor, with_root=True):
                  {'name': 0x55, 'form': rng.choice([0x23, 0x17]), 'role': None},
                  {'name': 0x02, 'form': rng.choice([0x22, 0x17, 0x18]), 'role': None}]
         rng.shuffle(attrs)
-        code = max(codes) + rng.randint(1, 5)
-        decls.append({'code': code, 'tag': rng.choice([0x11, 0x3c, 0x41, 0x4a]), 'kids': rng.random() < 0.9,
+        # codes are arbitrary and declared in no particular order: the root's code is as random as the others and
+        # its declaration sits anywhere in the table (small codes after large ones and vice versa)
+        code = None
+        while code is None or code in codes:
+            code = rng.choice([rng.randint(1, 20), rng.randint(1, 300), rng.getrandbits(rng.choice([14, 32, 70])) + 1])
+        decls.insert(rng.randint(0, len(decls)),
+                     {'code': code, 'tag': rng.choice([0x11, 0x3c, 0x41, 0x4a]), 'kids': rng.random() < 0.9,
                       'attrs': attrs, 'root': True})
     for d in decls:
         d['code_l'] = L(rng, d['code'])
@@ -389,7 +398,8 @@ def unit_abs(u):
 
 def world_abs(w):
     return [w['le'], [unit_abs(u) for u in w['info']], [unit_abs(u) for u in w['types']], w['abbrev'],
-            w['str'], w['line_str'], w['str_offsets'], w['addr'], w['loclists'], w['rnglists'], w.get('types_absent', 0)]
+            w['str'], w['line_str'], w['str_offsets'], w['addr'], w['loclists'], w['rnglists'], w.get('types_absent', 0),
+            w.get('history', [])]
 
 
 def rnd_bytes(rng, n, nonzero=False):
@@ -467,6 +477,18 @@ def gen_world(g, ctx, nunits_info, nunits_types, maxnodes, maxdepth=8, fanout=6,
         w['types_absent'] = 0
     else:
         w['types_absent'] = 1 if (types_state or rng.choice(['absent', 'empty'])) == 'absent' else 0
+    # by-offset accesses (get_CU_at) made on the object before the observations are repeated: the last unit first
+    # (nothing before it is cached yet), any unit, several units in any order
+    n = len(w['info'])
+    r = rng.random()
+    if r < 0.35:
+        w['history'] = [n - 1]
+    elif r < 0.55:
+        w['history'] = [n - 1, rng.randrange(n)]
+    elif r < 0.85:
+        w['history'] = [rng.randrange(n) for _ in range(rng.randint(1, min(4, n + 1)))]
+    else:
+        w['history'] = []
     # ---- .debug_abbrev: tables at arbitrary offsets, garbage in between
     encs = ctx.driver.batch([['enc_atable', table_abs(t)] for t in tables])
     sec = bytearray()
@@ -799,16 +821,22 @@ def _impl_unit(di_factory, idx, cu, is_tu):
     return [hdr, rels]
 
 
-def impl_report(secs):
+def impl_report(secs, warm_offsets=()):
+    """warm_offsets: .debug_info unit offsets fetched with get_CU_at on every DWARFInfo object before it is used"""
+    def factory():
+        di = _mk_dwarfinfo(secs)
+        for off in warm_offsets:
+            di.get_CU_at(off)
+        return di
     out = []
     for is_tu in (False, True):
         try:
-            di = _mk_dwarfinfo(secs)
+            di = factory()
             units = list(di.iter_TUs() if is_tu else di.iter_CUs())
         except Exception as e:
             out.append(_err(e))
             continue
-        out.append([_impl_unit(lambda: _mk_dwarfinfo(secs), i, cu, is_tu) for i, cu in enumerate(units)])
+        out.append([_impl_unit(factory, i, cu, is_tu) for i, cu in enumerate(units)])
     return out
 
 
@@ -915,6 +943,12 @@ def classify(impl, spec, hint=None):
                 return '%s/entry-shape' % sec, (ir, sr)
             if len(iu[1]) != len(su[1]):
                 return '%s/entry-count%s' % (sec, sfx), (len(iu[1]), len(su[1]))
+    if len(impl) > 3 and len(spec) > 3 and impl[3] != spec[3]:
+        if _is_err(impl[3]):
+            return 'after-get_CU_at/raises-%s' % impl[3][1], (impl[3], '...')
+        if impl[:2] == spec[:2] and len(impl[3]) == 2 and len(spec[3]) == 2:
+            k, d = classify(impl[3], spec[3], hint)
+            return 'after-get_CU_at/' + str(k), d
     if len(impl) > 2 and len(spec) > 2 and impl[2] != spec[2]:
         for ie, se in zip(impl[2], spec[2]):
             for f, i in (('get_DIE_by_sig8', 1), ('get_TU_by_sig8', 2)):
@@ -947,6 +981,19 @@ def evaluate(ctx, cases):
             model_s.append([sg, mo, _tu_of(mo)])
             impl_s.append([sg] + impl_sig8(all_secs, sg))
         impl, spec, model = impl + [impl_s], spec + [spec_s], model + [model_s]
+        # the same observations on objects that first served by-offset accesses; the answers do not depend on history
+        # (the model has no cache: DESIGN 2.4), so spec and model repeat their own answer
+        history = [i for i in (w[11] if len(w) > 11 else []) if isinstance(i, int) and 0 <= i < len(w[1])]
+        if history and isinstance(spec[0], list):
+            offs = [spec[0][i][0][7] for i in history]
+            try:
+                impl_h = impl_report(all_secs, offs)
+            except Exception as e:
+                impl_h = _err(e)
+            impl, spec, model = impl + [impl_h], spec + [spec[:2]], model + [model[:2]]
+        else:
+            impl, spec, model = impl + [[]], spec + [[]], model + [[]]
+        ctx.bump('history', 'none' if not history else ('last unit first' if history[0] == len(w[1]) - 1 and len(w[1]) > 1 else 'other'))
         in_domain = all(wf)
         hint = None
         if kind == 'one_form':
@@ -955,7 +1002,7 @@ def evaluate(ctx, cases):
             except Exception:
                 hint = '?'
         key, d = classify(impl, spec, hint)
-        nent = sum(len(u[1]) for part in spec for u in part if isinstance(u[1], list))
+        nent = sum(len(u[1]) for part in spec[:2] for u in part if isinstance(u[1], list))
         ctx.bump('kind', kind)
         ctx.bump('units', len(w[1]) + len(w[2]))
         ctx.bump('entries', nent if nent < 10 else ('10-49' if nent < 50 else '50+'))
@@ -963,7 +1010,7 @@ def evaluate(ctx, cases):
         ctx.bump('debug_types', 'absent' if types_absent else ('empty' if not w[2] else 'v4 units'))
         ctx.bump('sig8_lookups', '%d%s' % (len(sigs), ' (.debug_types absent)' if types_absent and sigs else ''))
         try:
-            chain = max([a[5] for part in spec for u in part if isinstance(u[1], list) for r in u[1] for a in r[0][5]] or [0])
+            chain = max([a[5] for part in spec[:2] for u in part if isinstance(u[1], list) for r in u[1] for a in r[0][5]] or [0])
         except Exception:
             chain = '?'
         ctx.bump('max_indirection_length', chain)
